@@ -295,8 +295,9 @@ class Ctx:
     def mismatch(self, key: str, detail: Dict[str, Any]) -> None:
         """Record a code/spec disagreement under a finding key computed from the
         failing case's features.  Listed keys become KNOWN-FINDING lines."""
-        if key in self._known:
-            self.known_seen[key] = self.known_seen.get(key, 0) + 1
+        nk = re.sub(r'\s+', '_', key)  # keys in KNOWN_FINDINGS.txt are written without spaces
+        if nk in self._known:
+            self.known_seen[nk] = self.known_seen.get(nk, 0) + 1
             return
         n = self._violation_keys.get(key, 0)
         self._violation_keys[key] = n + 1
